@@ -436,18 +436,35 @@ template<size_t BC, size_t CF> static std::string histCase(std::istringstream& i
 				pools[p].DeallocateAll();
 				verifyAll();
 			}
+			else if (op[0] == 's')
+			{	// pools[0].Swap(pools[1])
+				pools[0].Swap(pools[1]);
+				live[0].swap(live[1]);
+				checkLists(); verifyAll();
+			}
+			else if (op[0] == 'v')
+			{	// pools[d] = std::move(pools[s]); legal only when pools[d] has no allocated block (the destructor of its old state runs)
+				int d = op[1] - '0', s2 = op[2] - '0';
+				if (d == s2 || d < 0 || d > 1 || s2 < 0 || s2 > 1) { fail("bad move op"); break; }
+				if (live[d].empty())
+				{
+					pools[d] = std::move(pools[s2]);
+					live[d].swap(live[s2]); live[s2].clear();
+					checkLists(); verifyAll();
+				}
+			}
 			else if (op[0] == 'm')
 			{
 				int d = op[1] - '0', s = op[2] - '0';
 				if (d == s || d < 0 || d > 1 || s < 0 || s > 1) { fail("bad merge op"); break; }
 				++nMerge;
 				checkLists();
-				if (pools[s].pvUseCache()) pools[s].pvFlushDeallocate();   // MergeFrom's own first step (394-395); done here so that the dumped pre-state is the one the list surgery sees
+				bool srcCacheEmpty = pools[s].mCachedCount == 0;   // otherwise MergeFrom's flush changes the lists before the surgery
 				std::string pd = dumpList(pools[d]), ps = dumpList(pools[s]);
 				pools[d].MergeFrom(pools[s]);
 				for (auto& lb : live[s]) live[d].push_back(lb);
 				live[s].clear();
-				if (BC > 1)
+				if (BC > 1 && srcCacheEmpty)
 				{
 					merges << " | merge " << pd << " / " << ps << " -> " << dumpList(pools[d]) << " / " << dumpList(pools[s]);
 					if (countIds(pd) > 0 && countIds(ps) > 0) ++nMergeNontrivial;
